@@ -19,6 +19,20 @@ MUTANTS = [
     dict(id='c10-complement-both', prop='C10', rule='R10.2', file=PWM, old="data[i][s.as_index()] = row[A::complement(s).as_index()];", new="data[i][A::complement(s).as_index()] = row[A::complement(s).as_index()];", occ=1),
     dict(id='c10-complement-none', prop='C10', rule='R10.2', file=PWM, old="data[i][s.as_index()] = row[A::complement(s).as_index()];", new="data[i][s.as_index()] = row[s.as_index()];", occ=3),
     dict(id='c10-rev-outside-enumerate', prop='C10', rule='R10.2', file=PWM, old="for (i, row) in self.data.iter().rev().enumerate() {", new="for (i, row) in self.data.iter().enumerate().rev() {", occ=0),
+    # ---- C09
+    dict(id='c09-rescale-unguarded', prop='C09', rule='R9.1', file=PWM, old="                    if new_freqs[j] == 0.0 {\n                        row[j] = 0.0;\n                    } else {\n                        row[j] *= old_freqs[j] / new_freqs[j];\n                    }", new="                    row[j] *= old_freqs[j] / new_freqs[j];"),
+    dict(id='c09-to-weight-unguarded', prop='C09', rule='R9.1', file=PWM, old="                if f == 0.0 {\n                    dst[j] = 0.0;\n                } else {\n                    dst[j] = x / f;\n                }", new="                dst[j] = x / f;"),
+    dict(id='c09-guard-wrong-value', prop='C09', rule='R9.1', file=PWM, old="                if f == 0.0 {\n                    dst[j] = 0.0;", new="                if x == 0.0 {\n                    dst[j] = 0.0;"),
+    dict(id='c09-into-scoring-zero', prop='C09', rule='R9.2', file=PWM, old="*x = f32::NEG_INFINITY;", new="*x = 0.0;"),
+    dict(id='c09-min-uses-max', prop='C09', rule='R9.4', file=PWM, old=".min_by(|a, b| a.partial_cmp(b).unwrap())", new=".max_by(|a, b| a.partial_cmp(b).unwrap())"),
+    dict(id='c09-max-reversed-cmp', prop='C09', rule='R9.4', file=PWM, old=".max_by(|a, b| a.partial_cmp(b).unwrap())", new=".max_by(|a, b| b.partial_cmp(a).unwrap())"),
+    dict(id='c09-min-fewer-cols', prop='C09', rule='R9.4', file=PWM, old="row[..A::K::USIZE - 1]\n                    .iter()\n                    .min_by(|a, b|", new="row[..A::K::USIZE - 2]\n                    .iter()\n                    .min_by(|a, b|"),
+    dict(id='c09-len-check-removed', prop='C09', rule='R9.5', file=PWM, old="            if seq.len() != d.rows() {\n                return Err(InvalidData);\n            }", new="            if seq.len() > d.rows() {\n                return Err(InvalidData);\n            }"),
+    dict(id='c09-bg-sum-check', prop='C09', rule='R9.5', file=ABC, old="        if sum != 1.0 {\n            return Err(InvalidData);\n        }", new="        if sum > 1.0 {\n            return Err(InvalidData);\n        }"),
+    dict(id='c09-bg-range', prop='C09', rule='R9.5', file=ABC, old="if !(0.0..=1.0).contains(&f) {", new="if !(-1.0..=1.0).contains(&f) {"),
+    dict(id='c09-count-wrong-cell', prop='C09', rule='R9.6', file=PWM, old="d[i][x.as_index()] += 1;", new="d[i][(x.as_index() + 1) % A::K::USIZE] += 1;"),
+    dict(id='c09-log-base-swap', prop='C09', rule='R9.2', file=PWM, old="2.0 => item.log2(),\n                    10.0 => item.log10(),", new="2.0 => item.log10(),\n                    10.0 => item.log2(),"),
+    dict(id='c09-freq-tolerance', prop='C09', rule='R9.5', file=PWM, old=".all(|row| (row.iter().sum::<f32>() - 1.0).abs() < 0.01)", new=".all(|row| (row.iter().sum::<f32>() - 1.0).abs() < 1.01)"),
     # ---- C19
     dict(id='c19-resize-forgets-rows', prop='C19', rule='R19.2', file=DENSE, old="        self.data.resize_with(rows, Default::default);\n        self.rows = rows;", new="        self.data.resize_with(rows, Default::default);\n        self.rows = self.rows.max(rows);"),
     dict(id='c19-uninit-rows-off', prop='C19', rule='R19.2', file=DENSE, old="        m.data.set_len(rows);\n        m.rows = rows;", new="        m.data.set_len(rows);\n        m.rows = rows + 0 * m.rows;"),
@@ -35,6 +49,8 @@ MUTANTS = [
 ]
 
 BENIGN = [
+    dict(id='c09-guard-inverted-form', prop='C09', file=PWM, old="                if f == 0.0 {\n                    dst[j] = 0.0;\n                } else {\n                    dst[j] = x / f;\n                }", new="                if f != 0.0 {\n                    dst[j] = x / f;\n                } else {\n                    dst[j] = 0.0;\n                }"),
+    dict(id='c09-min-full-range', prop='C09', file=PWM, old="row[..A::K::USIZE - 1]\n                    .iter()\n                    .max_by(|a, b|", new="row[..]\n                    .iter()\n                    .max_by(|a, b|"),
     dict(id='c19-resize-order', prop='C19', file=DENSE, old="        self.data.resize_with(rows, Default::default);\n        self.rows = rows;", new="        self.rows = rows;\n        self.data.resize_with(rows, Default::default);"),
     dict(id='c10-index-form', prop='C10', file=PWM, occ=0,
          old="""        for (i, row) in self.data.iter().rev().enumerate() {
